@@ -344,7 +344,7 @@ func checkC13(c *Ctx) {
 	e2e := []fwd{}
 	for i := 0; i < c.Pick(4000, 200000); i++ {
 		t := c13RandText(rng, rng.Intn(20))
-		fam := c13Families[rng.Intn(2)]
+		fam := c13Families[[]int{0, 1, 4}[rng.Intn(3)]] // the three documented ways to write a text value
 		e2e = append(e2e, fwd{t, fam, encodeLiteral(rng, t, fam)})
 	}
 	ereqs := make([]Req, len(e2e))
